@@ -545,6 +545,8 @@ CATALOG = [
   ("imsc", (TT % ("", "<body begin=\"100000000000000000000:00:01\"><div><p dur=\"2s\">a</p><p begin=\"3s\">b</p></div></body>")).encode()),
   ("imsc", (TT % ("", "<body begin=\"100000000000000000001:00:01\"><div><p dur=\"2s\">a</p><p begin=\"3s\">b</p></div></body>")).encode()),
   ("imsc", (TT % ("", "<body begin=\"123456789012345678:00:01\"><div><p begin=\"1s\">b</p></div></body>")).encode()),
+  # a region with both tts:extent and tts:position (the LCD filter resolves the position against the computed extent)
+  ("imsc", (TT % (' tts:extent="640px 480px"', "<head><layout><region xml:id=\"r\" tts:extent=\"80% 20%\" tts:position=\"center bottom 10%\"/><region xml:id=\"q\" tts:extent=\"320px 10c\" tts:position=\"right 5px top 2c\"/></layout></head><body region=\"r\"><div><p>a</p><p region=\"q\">b</p></div></body>")).encode()),
   # loops in chained style references: a style that lists itself, two that list each other, a loop of three entered from outside
   ("imsc", (TT % ("", "<head><styling><style xml:id=\"s0\" style=\"s0\" tts:color=\"red\"/></styling></head><body style=\"s0\"><div><p>a</p></div></body>")).encode()),
   ("imsc", (TT % ("", "<head><styling><style xml:id=\"s0\" style=\"s1\"/><style xml:id=\"s1\" style=\"s0 s1\" tts:color=\"red\"/></styling></head><body><div><p style=\"s1\">a</p></div></body>")).encode()),
